@@ -348,9 +348,67 @@ int LLVMFuzzerTestOneInput(const uint8_t *data, size_t size)
         }
     }
 
+    /* ---- C10: relation between the two flag values, for ANY accepted text (strict or lenient) ---- */
+    if (mode_c10 && tree != NULL && !require_nt && (entry == 1 || entry == 3) && want_end && end != NULL)
+    {
+        size_t e = (size_t)(end - (const char *)buf);
+        size_t lim = n;
+        if (e <= lim)
+        {
+            size_t k = e;
+            int verdict = -1;
+            cJSON *t2;
+            while (k < lim && acc[k] != 0 && acc[k] <= 0x20)
+            {
+                k++;
+            }
+            if (k == lim || acc[k] > 0x20)
+            {
+                verdict = 0;
+            }
+            else
+            {
+                size_t z = k;
+                while (z < lim && acc[z] == 0)
+                {
+                    z++;
+                }
+                if (z == lim)
+                {
+                    verdict = 1;
+                }
+            }
+            t2 = (entry == 1) ? cJSON_ParseWithOpts((const char *)buf, NULL, 1) : cJSON_ParseWithLengthOpts((const char *)buf, n, NULL, 1);
+            if (verdict == 1 && t2 == NULL)
+            {
+                fz_fail("C10: a text accepted without the flag and followed only by blanks and a terminator is rejected when termination is required");
+            }
+            if (verdict == 0 && t2 != NULL)
+            {
+                fz_fail("C10: termination required and the value is not followed by blanks and a zero byte, yet the parse succeeded");
+            }
+            fz_class(verdict == 1 ? "flag_relation_must_succeed" : verdict == 0 ? "flag_relation_must_fail" : "flag_relation_open");
+            cJSON_Delete(t2);
+        }
+    }
+
     /* ---- C03 differential ---- */
     if (mode_c03)
     {
+        if (rc.cls == RC_STRICT && require_nt && tree != NULL)
+        {
+            /* bytes after the first complete value may be accepted only when termination is not required */
+            size_t k = rc.value_end;
+            size_t lim = n;
+            while (k < lim && acc[k] != 0 && acc[k] <= 0x20)
+            {
+                k++;
+            }
+            if (k == lim || acc[k] > 0x20)
+            {
+                fz_fail("C03: termination required, the value is followed by other bytes, yet the text was accepted");
+            }
+        }
         if (rc.cls == RC_INVALID && tree != NULL)
         {
             fz_fail("C03: text outside the dialect was accepted");
